@@ -130,7 +130,7 @@ Section First2.
     | PConst _ => True
     | PUn u a => okR env a /\ dom_un u (eval (T:=R) env a)
     | PBin b a c => okR env a /\ okR env c /\ (b = B_div -> eval (T:=R) env c <> 0)
-    | PScal b a c => okR env a /\ (b = B_div -> IZR c <> 0)
+    | PScal b a c => okR env a /\ (b = B_div -> cval (F:=R) c <> 0)
     | PPowi a n => okR env a /\ pw_ok n (eval (T:=R) env a)
     | PLet a body => okR env a /\ okR (env ++ (eval (T:=R) env a :: nil)) body
     end.
@@ -245,8 +245,8 @@ Section ReEval.
       split; [simpl; repeat split; assumption|]. simpl. apply (rel_bin JX JA_R f fam_f b _ _ _ _ Ra Rc Hd').
     - destruct Hok as [Ha Hc]. destruct (IH _ _ HE Ha Hex) as [Oa Ra].
       split; [simpl; split; assumption|]. simpl.
-      assert (EX : @castZ R (@fl_castZ R (@flF_prog R X dn)) c = IZR c) by (unfold flF_prog; rewrite (jf_fl _ _ _ _ _ JX); reflexivity).
-      rewrite EX. apply (rel_scal JX JA_R f fam_f b _ _ (IZR c) Ra Hc).
+      assert (EX : @cval R (@flF_prog R X dn) c = cval (F:=R) c) by (unfold flF_prog; rewrite (jf_fl _ _ _ _ _ JX); reflexivity).
+      rewrite EX. apply (rel_scal JX JA_R f fam_f b _ _ (cval (F:=R) c) Ra Hc).
     - destruct Hok as [Ha Hp]. destruct Hex as [Ea [P1 P2]]. destruct (IH _ _ HE Ha Ea) as [Oa Ra].
       split; [simpl; repeat split; assumption|]. simpl. apply (rel_powi JX JA_R f fam_f n _ _ P1 (pw_ok_range _ _ Hp) Ra).
     - destruct Hok as [Ha Hb]. destruct Hex as [Ea Eb]. destruct (IHa _ _ HE Ha Ea) as [Oa Ra].
